@@ -4,6 +4,7 @@ import (
 	"fmt"
 	"go/ast"
 	"os"
+	"strings"
 	"go/token"
 	"go/types"
 
@@ -347,6 +348,14 @@ func (x *Exec) unop(st *State, fr *Frame, in *ssa.UnOp) Val {
 		}
 		x.assumeTyped(st, res)
 		x.sawRef(st, res)
+		if l.Kind == "global" && res.T.Sort == SIface && len(l.Path) == 0 {
+			if i := strings.LastIndex(l.Name, "."); i >= 0 && strings.HasPrefix(l.Name[i+1:], "Err") {
+				// sentinel errors (package-level Err… variables) are assigned a non-nil error in the
+				// package initialiser and never reassigned
+				st.assume(Not(Eq(res.T, TINil)))
+				x.Trusted["assumed: sentinel error variables (Err…) are non-nil"]++
+			}
+		}
 		return res
 	case token.NOT:
 		return Val{T: Not(v.T), Typ: in.Type()}
